@@ -328,7 +328,7 @@ def check_after_run(spec: dict) -> core.CaseResult:
 # -- strategies --------------------------------------------------------------------------------------
 
 BAD = ['bytes', 'set', 'complex', 'object', 'decimal', 'bytearray', 'frozenset', 'range', 'type', 'func']
-BAD_KEYS = ['int', 'none', 'tuple', 'bytes', 'enum']
+BAD_KEYS = ['int', 'none', 'tuple', 'tuple0', 'tuple2', 'float', 'bool', 'bytes', 'enum', 'frozenset']
 
 
 @st.composite
